@@ -6,6 +6,7 @@ CONSTANTS Producers = {"p1", "p2"}
           SafeEnv = TRUE
           Locks = FALSE
           RealTime = FALSE
+          Disconnect = TRUE
           NMsgs = 2
           ScriptSet = {"sync"}
           Script2Set = {"none"}
